@@ -81,6 +81,8 @@ def build(seed: int, pid: str, ncfg: int) -> Tuple[Dict[str, Any], List[Dict[str
         geo["rewrite_back"] = bool(moves) and mr.chance(0.5)
     if rs.sub("retry").chance(0.25):
         geo["retry"] = True
+        if geo.get("late_chops") and rs.sub("retry", "fix").chance(0.6):
+            geo["late_fix"] = True
     programs = [P.make_program(geo, h64(seed, "cfg", c) % (1 << 31), identity=(c == 0)) for c in range(ncfg)]
     return geo, programs
 
